@@ -129,6 +129,11 @@ def check(ctx: Ctx) -> str:
 
     ctx.rule("R3", "dump writes every item of the stream, encoded when an encoding is given")
     dp = repo.func("environment:TemplateStream.dump")
+    # the caller's encoding is what the file is written in: a default is filled in only when
+    # none was given
+    enc_asg = [a for a in ast.walk(dp.node) if isinstance(a, (ast.Assign, ast.AugAssign)) and ast.unparse(a.targets[0] if isinstance(a, ast.Assign) else a.target) == "encoding"]
+    ctx.check(all(("encoding is None", True) in astq.guard_atoms(dp.node, a) for a in enc_asg), "dump:encoding-default", "environment:TemplateStream.dump", "the requested encoding is overwritten",
+              f"dump assigns `encoding` ({[ast.unparse(a)[:40] for a in enc_asg]}) on a path where the caller gave one: dumping to a file name with encoding='latin-1' writes UTF-8, so reading the file back in the requested encoding no longer gives the rendered text", dp.loc())
     s = ast.unparse(dp.node)
     gens = [g for g in ast.walk(dp.node) if isinstance(g, ast.GeneratorExp) and len(g.generators) == 1 and ast.unparse(g.generators[0].iter) == "self" and not g.generators[0].ifs]
     enc_ok = len(gens) == 1 and ast.unparse(gens[0].elt) == f"{ast.unparse(gens[0].generators[0].target)}.encode(encoding, errors)"
